@@ -109,4 +109,42 @@ theorem wf_clone (fresh : Nat → α → α) {b : Builder α} {acc : List α} (h
   refine ⟨c, ?_, by simpa using hw, by simpa [new] using hn⟩
   simp [clone, wf_asSlice h, hc]
 
+/-- `clone_from` (the provided `*self = source.clone()`): whatever the target held, it ends up holding
+    exactly the numbered clones of the source's elements; exactly its old elements are dropped -/
+theorem wf_cloneFrom (fresh : Nat → α → α) {t s : Builder α} {tacc sacc : List α}
+    (ht : Wf t tacc) (hs : Wf s sacc) :
+    ∃ c, cloneFrom fresh t s = some (c, tacc) ∧ Wf c (mapFrom fresh 0 sacc) ∧ c.n = s.n := by
+  obtain ⟨c, hc, hw, hn⟩ := wf_clone fresh hs
+  exact ⟨c, by simp [cloneFrom, hc, wf_dropped ht], hw, hn⟩
+
+/-- a run of caught pushes: the builder accepts values while there is room and rejects the rest -/
+theorem wf_pushAll (vs : List α) :
+    ∀ {b : Builder α} {acc : List α}, Wf b acc →
+      Wf (pushAll b vs).1 (acc ++ vs.take (b.n - acc.length)) ∧
+      (pushAll b vs).2 = vs.drop (b.n - acc.length) ∧ (pushAll b vs).1.n = b.n := by
+  induction vs with
+  | nil => intro b acc h; simpa [pushAll] using h
+  | cons v r ih =>
+    intro b acc h
+    by_cases hlt : acc.length < b.n
+    · obtain ⟨b', hp, hw, hn⟩ := wf_push_ok h v hlt
+      obtain ⟨g1, g2, g3⟩ := ih hw
+      have e : b.n - acc.length = (b'.n - (acc ++ [v]).length) + 1 := by simp [hn]; omega
+      simp only [pushAll, hp]
+      rw [e, List.take_succ_cons, List.drop_succ_cons]
+      exact ⟨by simpa using g1, g2, by omega⟩
+    · have hfull : acc.length = b.n := by have := h.1; omega
+      obtain ⟨g1, g2, g3⟩ := ih h
+      have e : b.n - acc.length = 0 := by omega
+      simp only [pushAll, wf_push_full h v hfull]
+      rw [e] at g1 g2 ⊢
+      simp only [List.take_zero, List.drop_zero, List.append_nil] at g1 g2 ⊢
+      exact ⟨g1, by rw [g2], g3⟩
+
+theorem wf_pushAll_new (n : Nat) (vs : List α) :
+    Wf (pushAll (new n) vs).1 (vs.take n) ∧ (pushAll (new n) vs).2 = vs.drop n ∧
+      (pushAll (new n : Builder α) vs).1.n = n := by
+  have := wf_pushAll vs (wf_new (α := α) n)
+  simpa [new] using this
+
 end Konst.ArrayBuilder
